@@ -58,3 +58,19 @@ contract(PT + ".validate", serves=["C15", "C05"], spec_module="spec.queries",
          inputs=lambda S, cfg: dict(self=any_point_tier(S), reportingMode=cfg["reportingMode"]),
          loops={"loop#1": {"carried": {"previousPoint": "(self.entries[j - 1] if j > 0 else None)"}}},
          spec="spec.queries.PointTier_validate", frame=["self"], engine_opts={"touch": True, "successor": True})
+
+# ---- timestamps: the strictly sorted set of all boundary times.  list(set(xs)) is the Dedup term of pyvc/core.py
+# (distinct values of xs in unspecified order); the two inclusions are proof-only (`subset`): if they stop being
+# provable the obligation is *unsupported*, and the native differential check decides
+contract(PT + ".timestamps", serves=["C15"], spec_module="spec.queries",
+         inputs=lambda S, cfg: dict(self=wf_point_tier(S, "self")),
+         frame=["self"], engine_opts={"sorted_forward": True},
+         ensures=[("strictly-sorted", "adjacent(result, lambda a, b: a < b)"),
+                  ("only-boundaries", "subset(result, point_times(self))"),
+                  ("all-boundaries", "subset(point_times(self), result)")])
+contract(IT + ".timestamps", serves=["C15"], spec_module="spec.queries",
+         inputs=lambda S, cfg: dict(self=wf_interval_tier(S, "self")),
+         frame=["self"], engine_opts={"sorted_forward": True},
+         ensures=[("strictly-sorted", "adjacent(result, lambda a, b: a < b)"),
+                  ("only-boundaries", "subset(result, interval_boundaries(self))"),
+                  ("all-boundaries", "subset(interval_boundaries(self), result)")])
